@@ -88,17 +88,18 @@ GENERIC = {
     "C01": " Also (repository-wide rules scoped to the vault module): identifier-kind agreement at every keeper call, no stale copy for every Get/Set accessor pair, outside the handlers a vault is credited only by an amount moved into vault custody in the same function (auction settlement under shutdown), and records loaded under independent message ids are tied by an equality test before a coin-moving handler can succeed.",
     "C03": " Also: records loaded under independent message ids (product and vault) are tied by an equality test, so the limits applied are those of the vault's own product.",
     "C04": " Also (liquidity module): identifier-kind agreement at every keeper call and no stale copy for every Get/Set accessor pair.",
-    "C08": " Also (lend module): identifier-kind agreement at every keeper call, no stale copy for every Get/Set accessor pair, and borrow totals follow the change applied to the recorded principal when the function changes it.",
+    "C07": " Also: paired writers (an order id is indexed only together with storing the order).",
+    "C08": " Also: paired writers mined from the repository and frozen (a new borrow id only with the stored borrow, its entry in the lend position's open-borrow list and the totals update; a removed borrow leaves every index); the LTV check of a draw covers principal and accrued interest. Also (lend module): identifier-kind agreement at every keeper call, no stale copy for every Get/Set accessor pair, and borrow totals follow the change applied to the recorded principal when the function changes it.",
     "C09": " Also (liquidation modules): identifier-kind agreement at every keeper call and no stale copy for every Get/Set accessor pair.",
     "C10": " Also (auction modules): identifier-kind agreement at every keeper call and no stale copy for every Get/Set accessor pair.",
-    "C11": " Also (auction modules): identifier-kind agreement at every keeper call and no stale copy for every Get/Set accessor pair.",
+    "C11": " Also: the minimum bid step is rounded up; a deleted limit-bid deposit leaves the recorded total (paired writers). Also (auction modules): identifier-kind agreement at every keeper call and no stale copy for every Get/Set accessor pair.",
     "C13": " Also: identifier-kind agreement and generic stale-copy rule for locker and collector, per-asset books receive the amount of the same side (sold lot / raised asset) of the auction record as the asset id they are keyed by, and locker handlers tie the records loaded under independent message ids.",
     "C14": " Also: the failure branch of a price/ratio helper cannot reach a success exit; every call into the esm and market keepers passes ids of the kind the callee names (the breaker is not looked up under an asset id); vault/locker/lend handlers tie the records loaded under independent message ids (the breaker's app is the position's app).",
     "C19": " Also (rewards module): identifier-kind agreement at every keeper call.",
 }
 
 CLAIMS["C18"] = ("comparison guard on the elapsed-time difference (finite orderings), must-pass-through store rule, expression-identity carry rule",
-    "Thin claim: decides three structural necessary conditions and nothing numeric. (1) Every accrual formula that scales by elapsed seconds (CalculationOfRewards, CalculateLendReward, CalculateBorrowInterest, CalculateStableInterest) can succeed only behind elapsed >= 0, without which (1+r)^t-1 and r*t turn negative. (2) In the stability-fee and locker-savings accrual every success path that stores the carry tracker also stores the position with its time base moved to the block time, so triggering twice does not accrue one interval twice. (3) Carry discipline in every accrue-and-carry function: what is subtracted from the tracker is Dec(TruncateInt(tracker)), that truncated amount is what is credited, and the tracker is stored afterwards on every successful path. NOT covered: sign, monotonicity and sub-additivity of the formulas as numbers, float64 rounding in math.Pow, the interest-rate model (base rate, continuity at the kink, lend <= borrow).",
+    "Thin claim: decides three structural necessary conditions and nothing numeric. (1) Every accrual formula that scales by elapsed seconds (CalculationOfRewards, CalculateLendReward, CalculateBorrowInterest, CalculateStableInterest) can succeed only behind elapsed >= 0, without which (1+r)^t-1 and r*t turn negative. (2) In the stability-fee and locker-savings accrual every success path that stores the carry tracker also stores the position with its time base moved to the block time, so triggering twice does not accrue one interval twice. (3) Carry discipline in every accrue-and-carry function: what is subtracted from the tracker is Dec(TruncateInt(tracker)), that truncated amount is what is credited, and the tracker is stored afterwards on every successful path. (4) One borrow-rate value (a returned rate, or the arguments of one pure rate helper) is built from one family of rate parameters, variable or stable, never a mix - a necessary condition of continuity at the kink. NOT covered: sign, monotonicity and sub-additivity of the formulas as numbers, float64 rounding in math.Pow, the interest-rate model (base rate, continuity at the kink, lend <= borrow).",
     "DESIGN.md §3 C18")
 
 NOT_APPLICABLE = {
